@@ -1546,17 +1546,45 @@ func runRecursion(c *Ctx, r *Result, rule string, reach *Reach) int {
 // sub-part of it (Index, Field*, MapIndex, Elem); and no cycle consists only of calls that pass
 // the parameter on unchanged. Values are finite and acyclic (ACYC), so the recursion ends.
 func autoValueDescent(c *Ctx, comp []*ssa.Function) string {
+	// functions that compare or combine two values in step (eq(lhs, rhs) -> eqArray(lhs, rhs) ->
+	// eq(lhs[i], rhs[i])) descend on each of them: it is enough that the k-th reflect.Value
+	// parameter descends, for some k
+	minCount := 1 << 30
+	for _, f := range comp {
+		cnt := 0
+		for _, p := range f.Params {
+			if isReflectValue(p.Type()) {
+				cnt++
+			}
+		}
+		if cnt < minCount {
+			minCount = cnt
+		}
+	}
+	if minCount == 0 || minCount > 4 {
+		return ""
+	}
+	for k := 0; k < minCount; k++ {
+		if why := autoValueDescentOn(c, comp, k); why != "" {
+			return why
+		}
+	}
+	return ""
+}
+
+func autoValueDescentOn(c *Ctx, comp []*ssa.Function, k int) string {
 	in := map[*ssa.Function]bool{}
 	dataParam := map[*ssa.Function]*ssa.Parameter{}
 	for _, f := range comp {
 		in[f] = true
 		var dp *ssa.Parameter
+		cnt := 0
 		for _, p := range f.Params {
 			if isReflectValue(p.Type()) {
-				if dp != nil {
-					return ""
+				if cnt == k {
+					dp = p
 				}
-				dp = p
+				cnt++
 			}
 		}
 		if dp == nil {
